@@ -126,10 +126,20 @@ def to_pandas(t, index: Optional[Dict[str, Any]] = None):
     import pandas as pd
 
     data = {}
+    # one table in four carries its strings and nullable flags as object columns (the pre-3.0 pandas representation);
+    # decided by the table's content, so that no random stream moves
+    first = t["cols"][0]["values"] if t["cols"] else []
+    obj = t.get("objstr")
+    if obj is None:
+        obj = (sum(v for v in first if isinstance(v, int)) + len(first)) % 4 == 1
     for c in t["cols"]:
         k = c["kind"]
         vals = list(c["values"])
-        if k in ("key", "igroup"):
+        if obj and k == "nbool":
+            data[c["name"]] = pd.Series([None if v is None else bool(v) for v in vals], dtype=object)
+        elif obj and k not in ("key", "igroup", "int", "float"):
+            data[c["name"]] = pd.Series(vals, dtype=object)
+        elif k in ("key", "igroup"):
             data[c["name"]] = pd.Series(vals, dtype="int64")
         elif k == "int":
             if any(v is None for v in vals):
